@@ -1,4 +1,5 @@
 import Okane.Lemmas.Alias
+import Okane.Lemmas.AliasCanon
 /-!
 # C12 — aliases are transparent; alias conflicts are rejected
 
@@ -410,6 +411,21 @@ theorem C12_use_before_declare (st st' : ProcState) (t : Transaction) (h : stepE
   by_cases hk : p.account = k
   · exact C12_conflict_process st' i k ds rest (Or.inr (Or.inr (hk ▸ hds)))
   · exact C12_conflict_process st' i k ds rest (Or.inr (Or.inl ⟨p.account, hds, hk, Or.inl hc⟩))
+
+/-! ## C12_canonical -/
+
+/-- **C12_canonical (accounts).**  In the ledger produced by an accepted run, every account name — keys of the balance and
+posting accounts of every transaction, i.e. everything `balance` and `register` print — is a canonical record of the
+account store; no alias key ever appears. -/
+theorem C12_canonical_accounts (es : List Entry) (st : ProcState) (h : process es = .ok st) :
+    (∀ a ∈ ledgerAccounts st, AMap.get? st.ctx.accounts.recs a = some none) ∧
+    (∀ a k, AMap.get? st.ctx.accounts.recs a = some (some k) → a ∉ ledgerAccounts st) := by
+  have hinv : CanonInv st := processFrom_canon es {} st 0 h
+    ⟨fun a k ha => by simp at ha, fun a ha => by simp [ledgerAccounts] at ha⟩
+  refine ⟨hinv.2, fun a k hak hmem => ?_⟩
+  have := hinv.2 a hmem
+  rw [Store.Canon, hak] at this
+  cases this
 
 /-! ## non-vacuity -/
 
